@@ -96,6 +96,7 @@ func NewNode(gen types.AppState, o NodeOpts) (n *Node, err error) {
 	} else {
 		n.stateDB, n.eventDB, n.snapDB = db.NewMemDB(), db.NewMemDB(), db.NewMemDB()
 	}
+	n.stateDB, n.eventDB = wrapNodeDB("state", n.stateDB), wrapNodeDB("events", n.eventDB) // write interception (mode_persist.go)
 	n.Storage = utils.VerifNewStorage(home, "", n.eventDB, n.stateDB, n.snapDB)
 	n.Cfg = newCfg(home, o.Disk, o.KeepStates)
 	defer func() {
@@ -160,6 +161,7 @@ func (n *Node) reopen() error {
 	if e != nil {
 		return e
 	}
+	n.stateDB, n.eventDB = wrapNodeDB("state", n.stateDB), wrapNodeDB("events", n.eventDB) // write interception (mode_persist.go)
 	n.Storage = utils.VerifNewStorage(n.Home, "", n.eventDB, n.stateDB, n.snapDB)
 	n.App = minter.NewMinterBlockchain(n.Storage, n.Cfg, nil, n.Period, n.ExpirePeriod, tmlog.NewNopLogger())
 	return nil
